@@ -21,6 +21,7 @@ fn main() {
         if let Ok(h) = std::env::var("HAZ") {
             cfg.hazards = pv::prop::c16::ALL_HAZARDS.iter().copied().filter(|x| h.split(',').any(|y| y == *x)).collect();
         }
+        if std::env::var("BIAS").as_deref() == Ok("Sort") { cfg.bias = Bias::Sort; }
         let g = Gen::new(&mut t, cfg);
         let (_db, prog, _f, _t) = g.gen_prog();
         let src = print::program(&prog);
